@@ -76,6 +76,16 @@ class C05(Machine):
         site = op["op"]
         if out["cls"] in ("crash", "limit_error", "key_error"):
             return [viol(self.ID, "op_raised", step, {"op": op, "cls": out["cls"], "type": out.get("type"), "msg": out.get("msg")}, site)]
+        if out["cls"] == "ok" and op["op"] in ("skip_to_minimal", "skip_remaining", "minimal"):
+            # a skip node is connected to trap spaces *inside* it
+            sd = world.sd
+            ref = world.ref
+            for i in world.node_ids():
+                if sd.node_data(i)["skipped"]:
+                    mv = world.node_mv(i)
+                    for s_ in sd.dag.successors(i):
+                        if not ref.subspace(world.node_mv(s_), mv):
+                            return [viol(self.ID, "skip_edge_leaves_the_node", step, {"node": world.space_of(i), "successor": world.space_of(s_)}, site)]
         if out["cls"] != "ok" or op["op"] != "seeds":
             return []
         if not op.get("q"):
